@@ -150,6 +150,30 @@ var lexerDevNames = map[string]bool{
 // specification for this run: the open known findings whose witness still
 // shows the deviating behaviour on the code under test. It prints the
 // KNOWN-FINDING line for those that belong to the running property.
+// LexerDevsQuiet: the same set without printing the KNOWN-FINDING lines again
+func LexerDevsQuiet() []string {
+	var devs []string
+	fs, err := core.LoadFindings()
+	if err != nil {
+		return nil
+	}
+	for _, f := range fs {
+		if !lexerDevNames[f.Dev] || f.Status != "open" {
+			continue
+		}
+		var w lexWitness
+		if json.Unmarshal(f.Witness, &w) != nil {
+			continue
+		}
+		got, crash := LexReal(w.Input)
+		if crash == "" && w.Index < len(got.Toks) && got.Toks[w.Index].K == w.Kind &&
+			(w.Value == "" || fromCps(got.Toks[w.Index].V) == w.Value) && (w.Col == 0 || got.Toks[w.Index].C == w.Col) {
+			devs = append(devs, f.Dev)
+		}
+	}
+	return devs
+}
+
 func LexerDevs(c *core.Ctx) []string {
 	fs, err := core.LoadFindings()
 	if err != nil {
